@@ -199,7 +199,7 @@ func genC17(seed int64, tier string) *Scenario {
 	r := rand.New(rand.NewSource(seed))
 	sc := &Scenario{Prop: "C17", Seed: seed, Knobs: map[string]interface{}{}, Sched: Canonical()}
 	sc.Files = c17Workspace(r)
-	mode := []string{"filter", "filter", "channel", "history", "json", "json", "hostile", "hostile-json"}[r.Intn(8)]
+	mode := []string{"filter", "filter", "channel", "history", "json", "json", "hostile", "hostile-json", "first-swallowed"}[r.Intn(9)]
 	sc.Knobs["mode"] = mode
 	switch mode {
 	case "filter", "channel":
@@ -221,6 +221,13 @@ func genC17(seed int64, tier string) *Scenario {
 			}
 			sc.Knobs["batch"] = b
 		}
+	case "first-swallowed":
+		// the start-up didChangeConfiguration (which the server ignores by design) carries settings
+		// that differ from the initialization options; incremental updates follow, no second change
+		sc.Knobs["config"] = randC17Config(r, false)
+		sc.Knobs["first"] = randC17Config(r, false)
+		sc.Knobs["touch"] = []string{"src/use.lua", "src/arity.lua", "lib/def.lua", "lib/misc.lua"}[r.Intn(4)]
+		sc.Knobs["data"] = []string{"print(brandnewglobal)\nlocal unusedx = 1\n", "crossvar = 3\nfunction crossfn(a, b, c) return a end\nlocal t = {q = 1, q = 2}\n"}[r.Intn(2)]
 	case "history":
 		n := 2 + r.Intn(4)
 		var cs []C17Config
@@ -444,6 +451,49 @@ func checkC17(t *testing.T, sc *Scenario) *Verdict {
 		}
 		v.Shape = fmt.Sprintf("%s %v %v %v view=%x", mode, c.Off, c.IgnErr, c.IgnHandle, hashString(a.ViewString()))
 		v.NonTrivial = len(base.View) > 0
+	case "first-swallowed":
+		c := knobConfig(sc.Knobs["config"])
+		first := knobConfig(sc.Knobs["first"])
+		touch, _ := sc.Knobs["touch"].(string)
+		data, _ := sc.Knobs["data"].(string)
+		h := &Scenario{Files: sc.Files, InitOpts: c.initOpts(), Ops: []Op{
+			{Kind: "config", Params: first.settings()}, // first notification after start-up: ignored by design
+			{Kind: "fswrite", Path: touch, Data: Bytes(data)}, {Kind: "deliver"},
+			{Kind: "open", Path: "ok.lua"}, {Kind: "change", Path: "ok.lua", Edits: []Edit{{Full: true, Text: "local fine = 1\nlocal alsounused = 2\nprint(fine)\n"}}}, {Kind: "save", Path: "ok.lua"}, {Kind: "deliver"},
+		}}
+		hr := run(h)
+		if hr.Outcome != OutOK {
+			return fail(hr, "first-swallowed")
+		}
+		var final []File
+		seen := map[string]bool{}
+		for _, f := range sc.Files {
+			switch f.Path {
+			case touch:
+				final = append(final, File{Path: f.Path, Data: Bytes(data)})
+			case "ok.lua":
+				final = append(final, File{Path: f.Path, Data: Bytes("local fine = 1\nlocal alsounused = 2\nprint(fine)\n")})
+			default:
+				final = append(final, f)
+			}
+			seen[f.Path] = true
+		}
+		if !seen[touch] {
+			final = append(final, File{Path: touch, Data: Bytes(data)})
+		}
+		if !seen["ok.lua"] {
+			v.Invalid = true
+			return v
+		}
+		fr := run(&Scenario{Files: final, InitOpts: c.initOpts(), Ops: []Op{{Kind: "open", Path: "ok.lua"}}})
+		if fr.Outcome != OutOK {
+			return fail(fr, "first-swallowed fresh")
+		}
+		if vv := cmp("c17-history-differs-from-fresh", "first (ignored) settings notification + incremental update", hr.View, fr.View, ""); vv != nil {
+			return vv
+		}
+		v.Shape = fmt.Sprintf("first-swallowed %v/%v view=%x", c.Off, first.Off, hashString(hr.ViewString()))
+		v.NonTrivial = true
 	case "history":
 		var cs []C17Config
 		b, _ := json.Marshal(sc.Knobs["configs"])
